@@ -255,7 +255,7 @@ package vm
 //@   ghost n0 u256 = top(scope, 2)
 //@   ghost copies u64 = 0
 //@   oncall (*vm.Memory).Copy : copies = copies + 1
-//@   assertcall (*vm.Memory).Copy operands [C15]: $0 == scope.Memory && u256($1) == d0 && u256($2) == s0_ && u256($3) == n0
+//@   assertcall (*vm.Memory).Copy operands [C15]: $0 == scope.Memory && u256($3) == n0 && (n0 != 0 ==> u256($1) == d0 && u256($2) == s0_)
 //@   ensures one-copy [C15]: copies == 1 && ret == nil && err == nil
 //@   ensures pops-three [C15]: len(scope.Stack.data) == old(len(scope.Stack.data)) - 3
 //@   modifies vm.Stack.data, cell:uint8
